@@ -170,12 +170,14 @@ class ModbusUdpProtocol(protocol.DatagramProtocol):
 
         :param data: The data sent by the client
         """
-        _logger.debug("Client Connected [%s]" % addr)
+        _logger.debug("Client Connected [%s]" % (addr,))
         if _logger.isEnabledFor(logging.DEBUG):
             _logger.debug("Datagram Received: "+ hexlify_packets(data))
         if not self.control.ListenOnly:
             continuation = lambda request: self._execute(request, addr)
-            self.framer.processIncomingPacket(data, continuation)
+            self.framer.processIncomingPacket(data, continuation,
+                                              single=self.store.single,
+                                              unit=self.store.slaves())
 
     def _execute(self, request, addr):
         """ Executes the request and returns the result
